@@ -221,6 +221,7 @@ class C02:
                 else:
                     self._full_counts[(r[0],)] += 1
             self._ctrl_c(cfg, spec, tmp, is_gz, t_full, ids, full_log_text, seed, add, out)
+            self._ctrl_c_same_objects(cfg, tmp, is_gz, add, out)
             k = 0
             for n in offs:
                 k += 1
@@ -289,8 +290,76 @@ class C02:
             return
         with open(path, "rb") as f:
             prefix = f.read()
+        # the most natural re-run of all: the SAME Experiment object (same learner / environment / evaluator objects) is run again in the same
+        # process - what a user does in a notebook after pressing Ctrl-C
+        if True:
+            path_same = os.path.join(tmp, "ctrlc_same.log" + (".gz" if is_gz else ""))
+            shutil.copyfile(path, path_same)
+            sink2 = ListSinkH()
+            quiet_context(sink2)
+            K.take_outside_calls()
+            try:
+                res_same = exp.run(path_same, **kwr)
+                d_same = X.diff_tables(t_full, X.tables(res_same))
+            except BaseException as e:
+                if type(e).__name__ == "SimKill":
+                    raise
+                d_same = f"raised {type(e).__name__}: {str(e)[:160]}"
+            K.take_outside_calls()
+            out["counters"]["reach.same_objects_run_again_after_ctrl_c"] = 1
+            if d_same:
+                add(vio("result_differs", f"{'gz' if is_gz else 'plain'} log, Ctrl-C while an environment was read, then the SAME Experiment object run again "
+                                          f"with that file: Result differs from the uninterrupted one: {d_same}", key="same_objects_rerun_after_ctrl_c:result_differs"))
+            for f_ in (path_same, path_same + ".partial"):
+                if os.path.exists(f_):
+                    os.remove(f_)
         where = "ctrl_c"
         self._check_resume(cfg, spec, path, prefix, len(prefix), where, is_gz, t_full, ids, full_log_text, seed, False, add, out, depth=1)
+
+    def _ctrl_c_same_objects(self, cfg, tmp, is_gz, add, out):
+        """A biased shape for the re-run that uses the SAME objects: one environment, one stateful learner that is listed once (so it is not
+        copied), Ctrl-C in the middle of its only evaluation, then ``exp.run(file)`` on the same Experiment object."""
+        if cfg.get("ctrl_c") is None or cfg["offset_seed"] % 3:
+            return
+        n = 6 + cfg["offset_seed"] % 7
+        spec3 = wrap_spec({"envs": [{"src": ["tagged", {"tag": "T0", "n": n, "n_actions": 3}], "ops": []}], "flavour": "sim", "shape": "product",
+                           "learners": [["counter", {"k": 1 + cfg["offset_seed"] % 3, "tag": "c0"}]],
+                           "evaluators": [["seqcb", {"record": ["reward", "action"], "learn": "on", "eval": "on", "seed": None}]],
+                           "seed": 1, "quiet": True, "description": None})
+        from sim.world import reset_coba_globals
+        kwr = dict(processes=1, maxchunksperchild=0, maxtasksperchunk=0, quiet=True, seed=1)
+        try:
+            res0, _, _ = X.run_inproc(spec3)
+            t0 = X.tables(res0)
+        except Exception:
+            return
+        spec4 = copy.deepcopy(spec3)
+        spec4["envs"][0]["src"][1]["interrupt_at"] = max(1, min(n - 1, int(cfg["ctrl_c"] * n)))
+        path = os.path.join(tmp, "ctrlc_same3.log" + (".gz" if is_gz else ""))
+        quiet_context(ListSinkH())
+        reset_coba_globals()
+        K.INTERRUPTS_ENABLED = False
+        try:
+            exp, _ = X.build_experiment(spec4)
+        finally:
+            K.INTERRUPTS_ENABLED = True
+        try:
+            exp.run(path, **kwr)
+        except BaseException as e:
+            if type(e).__name__ == "SimKill":
+                raise
+        out["counters"]["fault.ctrl_c_inside_the_only_evaluation_of_an_uncopied_learner"] = 1
+        try:
+            d = X.diff_tables(t0, X.tables(exp.run(path, **kwr)))
+        except BaseException as e:
+            if type(e).__name__ == "SimKill":
+                raise
+            d = f"raised {type(e).__name__}: {str(e)[:160]}"
+        K.take_outside_calls()
+        if d:
+            add(vio("result_differs", f"{'gz' if is_gz else 'plain'} log: Counter learner listed once on a {n}-interaction environment, Ctrl-C at interaction "
+                                      f"{spec4['envs'][0]['src'][1]['interrupt_at']} of its evaluation, then the SAME Experiment object run again with that "
+                                      f"file: Result differs from the uninterrupted one: {d}", key="same_objects_rerun_after_ctrl_c:result_differs"))
 
     def _where(self, F, n, is_gz):
         """Classify the crash point (used in finding keys so that different failure classes stay distinguishable)."""
